@@ -137,6 +137,9 @@ def _make_scratch():
     atexit.register(_rm)
 
 
+REGISTRY = []   # recently started servers of this process (for post-mortems of harness exceptions)
+
+
 class Server:
     """One private ferrous child process."""
 
@@ -190,6 +193,9 @@ class Server:
                 # it since: a successful connect proves nothing. Wait until OUR child owns
                 # the listening socket (its inode is among the child's descriptors).
                 if _child_listens(self.proc.pid, self.port):
+                    self._served = self.proc.pid
+                    REGISTRY.append(self)
+                    del REGISTRY[:-64]
                     return self
                 time.sleep(0.005)
             else:
@@ -208,11 +214,22 @@ class Server:
     def alive(self):
         return self.proc is not None and self.proc.poll() is None
 
+    def expect_exit(self):
+        """The harness is about to make the child exit on purpose (abort point, SHUTDOWN)."""
+        if self.proc is not None:
+            self._we_killed = self.proc.pid
+
+    def died_by_itself(self):
+        """The current child exited although nobody here killed it (and it had been serving)."""
+        return (self.proc is not None and self.proc.poll() is not None and
+                getattr(self, "_we_killed", None) != self.proc.pid and getattr(self, "_served", None) == self.proc.pid)
+
     def exit_status(self):
         return None if self.proc is None else self.proc.poll()
 
     def kill(self, sig=signal.SIGKILL):
         if self.proc is not None and self.proc.poll() is None:
+            self._we_killed = self.proc.pid
             try:
                 self.proc.send_signal(sig)
             except ProcessLookupError:
@@ -270,3 +287,23 @@ def wait_loops(ctl, n=3, timeout=5.0):
             return cur
         if time.monotonic() > end:
             raise resp.Timeout()
+
+
+def panic_signature(stderr):
+    """Normalised signature of a panic / abort found in a child's stderr."""
+    import re
+    msg = ""
+    m = re.search(r"panicked at ([^\n]*)\n([^\n]*)", stderr)
+    if m:
+        loc = re.sub(r":\d+:\d+:?$", "", m.group(1).strip())
+        loc = loc.replace("/repo/", "")
+        text = re.sub(r"\d+", "N", m.group(2).strip())[:70]
+        msg = "%s:%s" % (loc.split("src/")[-1], text)
+    fr = re.findall(r"\d+: (ferrous::[A-Za-z0-9_:<>]+)", stderr)
+    frame = fr[0] if fr else ""
+    frame = re.sub(r"::h[0-9a-f]{16}$", "", frame)
+    if "stack overflow" in stderr:
+        return "stack-overflow"
+    if "memory allocation of" in stderr:
+        return "alloc-failure"
+    return (msg + "@" + frame.replace("ferrous::", "")).replace(" ", "_")[:160] or "no-panic-message"
